@@ -128,6 +128,125 @@ pub fn run_c07(case: &Case) -> Outcome {
     out
 }
 
+/// Deep-chain models: the solution set is too large to iterate under every configuration; instead
+/// each configuration answers satisfiability and minimises / maximises the counting variable (the
+/// last variable of the model), and the answers are compared with the reference enumeration.
+pub fn run_c07_deep(case: &Case) -> Outcome {
+    use pumpkin_solver::optimisation::linear_sat_unsat::LinearSatUnsat;
+    use pumpkin_solver::optimisation::linear_unsat_sat::LinearUnsatSat;
+    use pumpkin_solver::optimisation::OptimisationDirection;
+    use pumpkin_solver::results::OptimisationResult;
+    use pumpkin_solver::results::SolutionReference;
+    use pumpkin_solver::Solver;
+    let m = &case.model;
+    let mut out = Outcome::new(m);
+    let mut r = SmallRng::seed_from_u64(case.sub);
+    let k = (case.extra.get("k").as_i64().max(2) as usize).min(12);
+    let sols = m.enumerate();
+    let z = m.vars.len() - 1;
+    let lo = sols.iter().map(|a| a[z]).min();
+    let hi = sols.iter().map(|a| a[z]).max();
+    let mut max_conf = 0;
+    let mut descs = vec![];
+    for ci in 0..k {
+        let cfg = if ci % 4 == 3 { Config::random_progressing(&mut r) } else { deep_chain_config(&mut r) };
+        descs.push(cfg.to_json());
+        let maximise = r.gen_bool(0.5);
+        let unsat_sat = r.gen_bool(0.3);
+        let fresh = r.gen_bool(0.5);
+        let what = format!(
+            "configuration #{ci} ({} {}, {})",
+            if unsat_sat { "unsat-sat" } else { "sat-unsat" },
+            if maximise { "max" } else { "min" },
+            if fresh { "fresh solver" } else { "same solver as the satisfy call" }
+        );
+        pumpkin_solver::verif::enable();
+        let res = guard(|| {
+            let mut o = Outcome::default();
+            // (a) satisfiability
+            let mut b = build(m, cfg.opts.to_options(), m.cons.len(), false, false);
+            if check_post_err(&mut o, m, &b) {
+                return o;
+            }
+            let mut brancher = make_brancher(&cfg.br, &b.solver, &b.xs);
+            let mut t = Budget::for_model(m);
+            match b.solver.satisfy(&mut brancher, &mut t) {
+                SatisfactionResult::Satisfiable(sol) => {
+                    let _ = check_solution(&mut o, m, &read_solution(&sol, &b.xs), &what);
+                }
+                SatisfactionResult::Unsatisfiable => {
+                    if !sols.is_empty() {
+                        o.fail("unsat-but-satisfiable", format!("{what}: Unsatisfiable but the model has {} solutions", sols.len()));
+                    }
+                }
+                SatisfactionResult::Unknown => o.fail("budget-exhausted", format!("{what}: no verdict within the poll budget")),
+            }
+            if o.failed() {
+                return o;
+            }
+            // (b) optimum of the counting variable, on a fresh solver or on the same one (which keeps
+            // the nogoods learned so far)
+            if fresh {
+                b = build(m, cfg.opts.to_options(), m.cons.len(), false, false);
+                if b.post_err.is_some() {
+                    return o;
+                }
+                brancher = make_brancher(&cfg.br, &b.solver, &b.xs);
+            }
+            let mut t = Budget::for_model(m);
+            let dir = if maximise { OptimisationDirection::Maximise } else { OptimisationDirection::Minimise };
+            let obj = mk_view(&View::plain(z), &b.xs);
+            let cb = |_: &Solver, _: SolutionReference, _: &BoxB| {};
+            let res = if unsat_sat {
+                b.solver.optimise(&mut brancher, &mut t, LinearUnsatSat::new(dir, obj, cb))
+            } else {
+                b.solver.optimise(&mut brancher, &mut t, LinearSatUnsat::new(dir, obj, cb))
+            };
+            let best = if maximise { hi } else { lo };
+            match res {
+                OptimisationResult::Optimal(sol) => {
+                    let a = read_solution(&sol, &b.xs);
+                    if check_solution(&mut o, m, &a, &what) {
+                        let v = a.unwrap()[z];
+                        if Some(v) != best {
+                            o.fail("wrong-optimum", format!("{what}: Optimal with objective {v}, true optimum {best:?}"));
+                        }
+                    }
+                }
+                OptimisationResult::Unsatisfiable => {
+                    if best.is_some() {
+                        o.fail("unsat-but-satisfiable", format!("{what}: Unsatisfiable but the model has {} solutions", sols.len()));
+                    }
+                }
+                OptimisationResult::Satisfiable(_) | OptimisationResult::Unknown => {
+                    o.fail("budget-exhausted", format!("{what}: no optimality verdict within the poll budget"));
+                }
+            }
+            o
+        });
+        let ev = pumpkin_solver::verif::drain();
+        pumpkin_solver::verif::disable();
+        let st = events::stats(&ev);
+        max_conf = max_conf.max(st.conflicts);
+        out.count("configs_run", 1);
+        out.count("ev.conflicts", st.conflicts);
+        out.count("ev.restarts", st.restarts);
+        out.count("ev.learned", st.learned);
+        merge(&mut out, res);
+        if out.failed() {
+            cfg.label(&mut out);
+            out.config = Json::obj([("failing_configuration", cfg.to_json()), ("index", Json::Int(ci as i128))]);
+            break;
+        }
+        out.cover(format!("deep-chain:{}", if unsat_sat { "unsat-sat" } else { "sat-unsat" }));
+    }
+    if !out.failed() {
+        out.config = Json::Arr(descs);
+    }
+    out.nontrivial = max_conf >= 3;
+    out
+}
+
 // ---------------------------------------------------------------------------------------------
 // C08: cumulative under option tuples
 
